@@ -22,6 +22,7 @@ import (
 	"strings"
 
 	goahttp "goa.design/goa/v3/http"
+	httpmw "goa.design/goa/v3/http/middleware"
 
 	"verifharness/internal/lp"
 )
@@ -215,8 +216,26 @@ func run(toks []string) string {
 		}
 		return fmt.Sprintf("path=%s raw=%s", lp.Enc(req.URL.Path), lp.Enc(req.URL.RawPath))
 	case "mux":
+		// the same muxer with goa's SmartRedirectSlashes middleware mounted: a request that a route matches as it is goes to that
+		// route with the same variables (the middleware only redirects paths that match with the trailing slash toggled)
+		plain := serveMux(toks, false)
+		if strings.HasPrefix(plain, "route=") {
+			if smart := serveMux(toks, true); smart != plain {
+				return plain + " with-SmartRedirectSlashes:" + smart
+			}
+		}
+		return plain
+	}
+	return "bad-op"
+}
+
+func serveMux(toks []string, smart bool) string {
+	{
 		k, _ := strconv.Atoi(toks[2])
 		m := goahttp.NewMuxer()
+		if smart {
+			m.Use(httpmw.SmartRedirectSlashes)
+		}
 		var hit, mwPattern, mwVars, handlerVars string
 		hitAny := false
 		// a middleware registered before the handlers, one after the first Handle
@@ -306,7 +325,6 @@ func run(toks []string) string {
 		}
 		return "status=" + strconv.Itoa(rec.Code)
 	}
-	return "bad-op"
 }
 
 func sortedVars(vars map[string]string) []string {
